@@ -69,7 +69,7 @@ PROPS = {
     "C07": dict(functions=V3000, lean=["v30line", "v3000"], diff=["io"], bounded=[("c07", None)]),
     "C08": dict(functions=V2000 + V3000, lean=["v2000"], diff=["io"], bounded=[("c08", None)]),
     "C09": dict(probes=["v5"], functions=WRITER + V3000, lean=["v30line"], diff=["io"], bounded=[("c09", None)]),
-    "C10": dict(functions=PARSER, lean=[], diff=["parser"], bounded=[("c10", None)]),
+    "C10": dict(functions=PARSER, lean=["parser"], diff=["parser"], bounded=[("c10", None)]),
     "C11": dict(probes=["v3"], functions=PARSER + CANON + SERIAL, lean=[], diff=["parser", "pipeline"], bounded=[("c11", None)]),
     "C12": dict(functions=CANON + SERIAL, lean=["relabel", "partition"], diff=["pipeline"], bounded=[("pipeline", "c12")]),
     "C13": dict(probes=[], functions=CANON, lean=["partition"], diff=["pipeline"], bounded=[("pipeline", "c13")]),
